@@ -17,6 +17,7 @@ package main
 
 import (
 	"fmt"
+	"sort"
 	"go/ast"
 	"go/token"
 	"go/types"
@@ -444,6 +445,15 @@ func (rx *ringExec) stmt(s ast.Stmt) {
 			rx.fail(s.Pos(), "multi-assignment not modelled in ring mode")
 			return
 		}
+		if sel, ok := x.Lhs[0].(*ast.SelectorExpr); ok {
+			// q.x = <element pointer>: the field now refers to that element object (sharing is checked at the end)
+			if pid, ok := unparen(sel.X).(*ast.Ident); ok {
+				if pt, ok := rx.vars[rx.info.Uses[pid]].(*ringPoint); ok {
+					pt.fields[sel.Sel.Name] = rx.elemOf(x.Rhs[0])
+					return
+				}
+			}
+		}
 		id, ok := x.Lhs[0].(*ast.Ident)
 		if !ok {
 			rx.fail(s.Pos(), "assignment target not modelled in ring mode")
@@ -616,6 +626,28 @@ func (eng *Engine) VerifyRing(key string) ([]ringObl, error) {
 				}
 			}
 			rx.block(fi.Decl.Body)
+			// separation: distinct points must not share field-element objects after the operation
+			if len(points) > 1 && rx.err == nil {
+				shared := ""
+				var pn []string
+				for n := range points {
+					pn = append(pn, n)
+				}
+				sort.Strings(pn)
+				for i := 0; i < len(pn); i++ {
+					for j := i + 1; j < len(pn); j++ {
+						for fa, ea := range points[pn[i]].fields {
+							for fb, eb := range points[pn[j]].fields {
+								if ea == eb && shared == "" {
+									shared = fmt.Sprintf("%s.%s and %s.%s are the same field-element object after the call: a later change of one changes the other", pn[i], fa, pn[j], fb)
+								}
+							}
+						}
+					}
+				}
+				out = append(out, ringObl{Name: fmt.Sprintf("%s/ring:separate@%s", key, label), OK: shared == "", Msg: shared,
+					Pos: fmt.Sprintf("%s:%d", pos.Filename[strings.LastIndex(pos.Filename, "/")+1:], pos.Line)})
+			}
 			for _, o := range spec.Outs {
 				if o.When != "" && !strings.Contains(","+label+",", ","+o.When+",") && !strings.Contains(","+label+",", ","+strings.Replace(o.When, "==", "=", 1)+",") {
 					continue
